@@ -29,6 +29,8 @@ def oracle(h):
     known, active = set(), set()
     for e in h.evs:
         ev, o = e["ev"], e["out"]
+        if ev.get("nomodel"):
+            continue
         hooks_active = {sc.tokkey(s["Token"]) for s in (tables.get("sessions") or []) if s["Activated"]}
         if hooks_active - active:
             fails.append(("activated-without-successful-activation", "the session table marks token(s) %s activated although no ActivateSession "
@@ -92,6 +94,8 @@ def run(ctx):
         tables = h.init["tables"]
         for e in h.evs:
             ev = e["ev"]
+            if ev.get("nomodel"):
+                continue
             known = {sc.tokkey(s["Token"]): s["Activated"] for s in (tables.get("sessions") or [])}
             tokclass = "null" if ev["tok"] == 0 else ("activated" if known.get(ev["tok"]) else ("created" if ev["tok"] in known else "unknown-or-closed"))
             classes.add((ev.get("svcname") or ev["kind"], tokclass, e["out"]["k"]))
